@@ -5,6 +5,8 @@ CONSTANTS
   HasHf = FALSE
   Absent0 <- AbsMidStab
   Admin = TRUE
+  AlwaysW = TRUE
+  AlwaysPRs = TRUE
   Cmds = {}
   Rewrites = FALSE
   NP = 2
